@@ -25,6 +25,9 @@ def knownClasses : List (String × String × String × String) := [
   ("oracle", "queries_same", "vals=", "F-gen-2"),
   ("random", "validate", "ParseUint", "F-rnd-2"),
   ("random", "import", "ParseUint", "F-rnd-2"),
+  ("token", "validate", "invalid_token_max_supply", "F-gen-9"),
+  ("token", "import", "invalid_token_max_supply", "F-gen-9"),
+  ("token", "import", "does_not_exist", "F-gen-10"),
   ("record", "fixpoint", "recs=", "F-gen-3"),
   ("record", "queries_same", "recs=", "F-gen-3")]
 
